@@ -54,7 +54,7 @@ META: Dict[str, Any] = {
                     "zoo layers are non-degenerate (every field item occupies at least one byte)"],
 }
 
-N_ZOO = 13
+N_ZOO = 14
 INSTR_LIMIT = 3_000_000
 
 STATE: Dict[str, Any] = {}
@@ -302,6 +302,9 @@ def build_corpus(ascii_tails: bool = False, budget: Optional[InstrBudget] = None
                         found.append(pdu)
                 except Exception:  # noqa: BLE001
                     pass
+                for ex in STATE.get("zoo_truth", {}).get(lname, {}).get("examples", {}).get(co.short_name, []):
+                    # valid by construction (recorded by the zoo builder): not filtered through the decoder
+                    found.append(bytes.fromhex(ex))
                 try:
                     prefix = bytes(co.coded_const_prefix())
                 except Exception:  # noqa: BLE001
@@ -357,6 +360,8 @@ def build_corpus(ascii_tails: bool = False, budget: Optional[InstrBudget] = None
     # sanity: the zoo's recorded ground truth agrees with the walk
     for lname, truth in STATE["zoo_truth"].items():
         for co_name, L in truth.items():
+            if co_name == "examples":
+                continue
             if L is not None and fixed[lname].get(co_name) not in (L, None):
                 raise RuntimeError(f"ground truth mismatch {lname}.{co_name}: walk={fixed[lname].get(co_name)} zoo={L}")
 
